@@ -86,6 +86,7 @@ class Sched:
         self.line_yields = 0
         self.line_stalls = 0
         self.stall_p = 0.0
+        self._main_woken = False
         self.personality = personality
         self.tasks = []
         self.by_ident = {}
@@ -273,6 +274,12 @@ class Sched:
         """called by a task's thread when its target has ended"""
         me.state = "done"
         if self.abort:
+            # a hang declared by a child task: once that task has unwound, the parent is
+            # woken so that it aborts out of parallel_add (the rest is drained afterwards)
+            if not self.main.done and self.main.state != "running" and not self._main_woken:
+                self._main_woken = True
+                self.cur = self.main
+                self.main.sem.release()
             return
         nxt = self._choose()
         if nxt is None:
